@@ -46,7 +46,13 @@ func (a *asyncCounter) hook(name string, args ...interface{}) {
 	case "async.spawn":
 		a.n.Add(1)
 	case "async.done":
-		a.n.Add(-1)
+		// never below zero: a goroutine spawned before this counter was installed may still finish
+		for {
+			v := a.n.Load()
+			if v <= 0 || a.n.CompareAndSwap(v, v-1) {
+				break
+			}
+		}
 	}
 }
 
